@@ -170,6 +170,8 @@ class Gen:
         windowed = r.random() < 0.7
         regular = r.random() < 0.6
         n = self.length(lo=1)        # (the empty series is exercised by the C01 driver)
+        if kind == "bogus" and r.random() < 0.3:
+            n = 0                     # an unknown check_type is rejected whatever the series, also an empty one
         t = self.axis(n, regular=regular)
         gappy = False
         if windowed and not regular and n >= 5 and r.random() < 0.5:
@@ -334,6 +336,9 @@ class Gen:
             z = [NA if (zmode == "allmissing" or (zmode == "some" and r.random() < 0.4))
                  else r.choice([0, 5, 10, 15, 20, 25]) for _ in range(n)]
         members = [self.member(absolute_only) for _ in range(r.choice([0, 1, 1, 2, 2, 3]))]
+        if len(members) >= 2 and r.random() < 0.2:
+            # the first member once more at the end (A, B, A): the last matching member decides, so the repeat counts
+            members.append(copy.deepcopy(members[0]))
         return mk("clim", x=self.series(n, lo=-6, hi=6), t=t, z=z, p={"members": members})
 
     def base(self, fn):
